@@ -39,8 +39,11 @@ Section C20.
   (* constraint level: every op is a constraint op of tn, approved by include_object; drops concern accepted names *)
   Lemma ciu_f_In tn ct mt o : In o (compare_indexes_and_uniques_f io iname tn ct mt) ->
     cons_op tn o /\ accepted (op_nref o) /\ (drops_or_alters o = true -> iname (op_nref o) = true).
-  Proof. unfold compare_indexes_and_uniques_f. rewrite !in_app_iff, !in_flat_map. intros [[x [Hx H]]|[[x [Hx H]]|[x [Hx H]]]].
-    - destruct (memN _ _); [inversion H|]. apply obj_removed_f_In in H. destruct H as [-> Hio].
+  Proof. unfold compare_indexes_and_uniques_f. rewrite !in_app_iff, !in_flat_map. intros [[x [Hx H]]|[[x [Hx H]]|[[x [Hx H]]|H]]].
+    4:{ destruct ct as [c|]; [|inversion H]. destruct mt as [m|]; [|inversion H]. apply in_flat_map in H. destruct H as [u [_ H]].
+        destruct (existsb _ _); [inversion H|]. destruct (io (OUUq tn u) false None) eqn:E; [|inversion H]. destruct H as [<-|[]].
+        split; [simpl; auto|]. split; [|simpl; congruence]. apply (accepted_intro (OUUq tn u) false None E). }
+    - destruct (memN _ _); [inversion H|]. destruct (is_uq x && _); [inversion H|]. apply obj_removed_f_In in H. destruct H as [-> Hio].
       apply conn_cons_f_In in Hx. destruct Hx as [Hn _]. rewrite op_nref_drop. split; [simpl; auto|]. split; auto.
       apply (accepted_intro (OCons tn x) true None); auto.
     - destruct (kfind k_name (k_name x) _) as [ck|] eqn:E; [|inversion H]. destruct (kfind_some _ _ _ _ E) as [Hck Hkn].
@@ -60,10 +63,11 @@ Section C20.
   Qed.
 
   Lemma ciu_f_created tn mt o : In o (compare_indexes_and_uniques_f io iname tn None mt) -> drops_or_alters o = false.
-  Proof. unfold compare_indexes_and_uniques_f. cbn [conn_cons_f flat_map app]. rewrite in_app_iff, !in_flat_map.
-    intros [[x [Hx H]]|[x [Hx H]]].
+  Proof. unfold compare_indexes_and_uniques_f. cbn [conn_cons_f flat_map app]. rewrite !in_app_iff, !in_flat_map.
+    intros [[x [Hx H]]|[[x [Hx H]]|H]].
     - cbn in H. inversion H.
-    - cbn in H. apply obj_added_f_In in H. destruct H as [-> _]. reflexivity. Qed.
+    - cbn in H. apply obj_added_f_In in H. destruct H as [-> _]. reflexivity.
+    - destruct mt; inversion H. Qed.
 
   Lemma fcols_In tn cs c : In c (fcols iname tn cs) -> In c cs /\ iname (NColumn tn (c_name c)) = true.
   Proof. unfold fcols. rewrite filter_In. auto. Qed.
@@ -104,8 +108,8 @@ Section C20.
       apply (accepted_intro (OColumn tn x) true None); auto.
   Qed.
 
-  Lemma ftables_In conn c : In c (ftables iname conn) -> In c conn /\ iname NSchema = true /\ iname (NTable (t_name c)) = true.
-  Proof. unfold ftables. destruct (iname NSchema); [|simpl; tauto]. rewrite filter_In. tauto. Qed.
+  Lemma ftables_In conn c : In c (ftables iname conn) -> In c conn /\ iname (schema_ref (t_name c)) = true /\ iname (NTable (t_name c)) = true.
+  Proof. unfold ftables. rewrite filter_In, andb_true_iff. tauto. Qed.
 
   Lemma cons_op_table tn o : cons_op tn o -> op_table o = tn. Proof. destruct o; simpl; tauto. Qed.
   Lemma col_op_table tn o : col_op tn o -> op_table o = tn. Proof. destruct o; simpl; tauto. Qed.
@@ -114,7 +118,7 @@ Section C20.
   (* every operation of the filtered comparison: approved for the object and for its table; names of drops/alters accepted *)
   Lemma diff_f_In g conn meta o : In o (diff_f io iname g conn meta) ->
     (accepted (op_nref o) /\ accepted (NTable (op_table o))) /\
-    (drops_or_alters o = true -> iname NSchema = true /\ iname (NTable (op_table o)) = true /\ iname (op_nref o) = true).
+    (drops_or_alters o = true -> iname (schema_ref (op_table o)) = true /\ iname (NTable (op_table o)) = true /\ iname (op_nref o) = true).
   Proof. unfold diff_f, compare_tables_f. rewrite !in_app_iff, !in_flat_map. intros [[m [Hm H]]|[[c [Hc H]]|[m [Hm H]]]].
     - destruct (memN _ _); [inversion H|]. destruct (io (OTable m) false None) eqn:E; [|inversion H].
       pose proof (accepted_intro (OTable m) false None E) as Ht. simpl in Ht. destruct H as [<-|H].
@@ -128,7 +132,7 @@ Section C20.
       + simpl. split; auto.
     - destruct (kfind t_name (t_name m) _) as [c|] eqn:Ec; [|inversion H]. destruct (io (OTable m) false _) eqn:E; [|inversion H].
       pose proof (accepted_intro (OTable m) false _ E) as Ht. simpl in Ht. apply kfind_some in Ec. destruct Ec as [Hc Hcn].
-      apply ftables_In in Hc. destruct Hc as [_ [Hs Hn]]. rewrite Hcn in Hn.
+      apply ftables_In in Hc. destruct Hc as [_ [Hs Hn]]. rewrite Hcn in Hn. rewrite Hcn in Hs.
       unfold existing_table_f in H. rewrite !in_app_iff in H.
       assert (Hcase: (col_op (t_name m) o \/ cons_op (t_name m) o \/ fk_op (t_name m) o) /\ accepted (op_nref o) /\ (drops_or_alters o = true -> iname (op_nref o) = true)).
       { destruct H as [H|[H|[H|H]]].
@@ -150,11 +154,11 @@ Section C20.
   Lemma memN_fcols tn n cs : iname (NColumn tn n) = true -> memN n (keys c_name (fcols iname tn cs)) = memN n (keys c_name cs).
   Proof. intros Hn. rewrite !memN_keys, kfind_fcols; auto. Qed.
 
-  Lemma kfind_ftables n conn : iname NSchema = true -> iname (NTable n) = true -> kfind t_name n (ftables iname conn) = kfind t_name n conn.
-  Proof. intros Hs Hn. unfold kfind, ftables. rewrite Hs. induction conn as [|a l IH]; simpl; auto.
+  Lemma kfind_ftables n conn : iname (schema_ref n) = true -> iname (NTable n) = true -> kfind t_name n (ftables iname conn) = kfind t_name n conn.
+  Proof. intros Hs Hn. unfold kfind, ftables. induction conn as [|a l IH]; simpl; auto.
     destruct (N.eqb_spec (t_name a) n) as [E|E].
-    - rewrite E, Hn. simpl. rewrite E, N.eqb_refl. auto.
-    - destruct (iname (NTable (t_name a))); simpl; auto. apply N.eqb_neq in E. rewrite E. auto. Qed.
+    - rewrite E, Hs, Hn. simpl. rewrite E, N.eqb_refl. auto.
+    - destruct (iname (schema_ref (t_name a)) && iname (NTable (t_name a))); simpl; auto. apply N.eqb_neq in E. rewrite E. auto. Qed.
 
   Lemma kfind_filter_none {A} (key:A->N) p n l : ~ In n (keys key l) -> kfind key n (filter p l) = None.
   Proof. intros H. destruct (kfind key n (filter p l)) eqn:E; auto. apply kfind_some in E. destruct E as [E1 E2].
@@ -244,11 +248,38 @@ Section C20.
   Lemma memN_fcons_false tn n ks : NoDup (keys k_name ks) -> kfind k_name n ks = None -> memN n (keys k_name (fcons iname tn ks)) = false.
   Proof. intros Hnd H. rewrite memN_keys, kfind_fcons, H; auto. Qed.
 
-  Lemma ciu_conservative_existing tn c m o :
+  (* without unnamed unique constraints in the metadata table: the three name-driven loops *)
+  Definition ciu_named_f (tn:N) (conn_table metadata_table:option table) : list op :=
+    let is_create_table := match conn_table with None => true | Some _ => false end in
+    let is_drop_table := match metadata_table with None => true | Some _ => false end in
+    let cod := is_create_table || is_drop_table in
+    let metadata_cons := match metadata_table with Some m => t_cons m | None => [] end in
+    let supports_unique_constraints := negb is_create_table in
+    let conn_cons := conn_cons_f iname tn conn_table metadata_table in
+    flat_map (fun ck => if memN (k_name ck) (keys k_name metadata_cons) then []
+                        else obj_removed_f io tn supports_unique_constraints cod ck) conn_cons
+    ++ flat_map (fun mk => match kfind k_name (k_name mk) conn_cons with
+                           | Some ck => if negb (Bool.eqb (is_ix ck) (is_ix mk))
+                                        then obj_removed_f io tn supports_unique_constraints cod ck
+                                             ++ obj_added_f io tn supports_unique_constraints cod mk
+                                        else if sig_equal mk ck then [] else obj_changed_f io tn ck mk
+                           | None => []
+                           end) metadata_cons
+    ++ flat_map (fun mk => if memN (k_name mk) (keys k_name conn_cons) then []
+                           else obj_added_f io tn supports_unique_constraints cod mk) metadata_cons.
+  Lemma ciu_f_no_unnamed tn ct mt : no_uuq mt -> compare_indexes_and_uniques_f io iname tn ct mt = ciu_named_f tn ct mt.
+  Proof. intros H. unfold compare_indexes_and_uniques_f, ciu_named_f.
+    assert (Hu: match mt with Some m => t_uuqs m | None => [] end = []) by (destruct mt; auto).
+    rewrite Hu. f_equal.
+    - apply flat_map_ext. intros a. simpl. rewrite andb_false_r. reflexivity.
+    - f_equal. rewrite <- app_nil_r. f_equal. destruct ct, mt; auto. simpl in H. rewrite H. reflexivity. Qed.
+
+  Lemma ciu_conservative_existing tn c m o : t_uuqs m = [] ->
     NoDup (keys k_name (t_cons c)) -> NoDup (keys k_name (t_cons m)) ->
     iname (op_nref o) = true -> cons_guard tn (t_cons c) (t_cons m) o = true ->
     (In o (compare_indexes_and_uniques_f io iname tn (Some c) (Some m)) <-> In o (compare_indexes_and_uniques tn (Some c) (Some m))).
-  Proof. intros Hc Hm Hname Hg. unfold compare_indexes_and_uniques_f, compare_indexes_and_uniques. cbn [conn_cons_f orb negb].
+  Proof. intros Hu Hc Hm Hname Hg. rewrite (ciu_f_no_unnamed tn (Some c) (Some m) Hu), (ciu_no_unnamed tn (Some c) (Some m) Hu).
+    unfold ciu_named_f, ciu_named. cbn [conn_cons_f orb negb].
     rewrite !in_app_iff, !in_flat_map. split.
     - intros [[x [Hx H]]|[[x [Hx H]]|[x [Hx H]]]].
       + left. exists x. unfold fcons in Hx. apply filter_In in Hx. split; [tauto|]. destruct (memN _ _); [inversion H|].
@@ -296,9 +327,10 @@ Section C20.
         unfold cons_guard in Hg. rewrite E in Hg. rewrite obj_added_f_of, obj_added_true; auto. left; auto.
   Qed.
 
-  Lemma ciu_conservative_created tn m o : cons_guard tn [] (t_cons m) o = true ->
+  Lemma ciu_conservative_created tn m o : t_uuqs m = [] -> cons_guard tn [] (t_cons m) o = true ->
     (In o (compare_indexes_and_uniques_f io iname tn None (Some m)) <-> In o (compare_indexes_and_uniques tn None (Some m))).
-  Proof. intros Hg. unfold compare_indexes_and_uniques_f, compare_indexes_and_uniques. cbn [conn_cons_f orb negb flat_map app].
+  Proof. intros Hu Hg. rewrite (ciu_f_no_unnamed tn None (Some m) Hu), (ciu_no_unnamed tn None (Some m) Hu).
+    unfold ciu_named_f, ciu_named. cbn [conn_cons_f orb negb flat_map app].
     rewrite !in_app_iff, !in_flat_map. split.
     - intros [[x [Hx H]]|[x [Hx H]]]; [cbn in H; inversion H|]. right. exists x. split; auto. cbn in H |- *. apply obj_added_f_sub; auto.
     - intros [[x [Hx H]]|[x [Hx H]]]; [cbn in H; inversion H|]. right. exists x. split; auto. cbn in H |- *.
@@ -307,7 +339,8 @@ Section C20.
   Lemma ciu_conservative_dropped tn c o : NoDup (keys k_name (t_cons c)) ->
     iname (op_nref o) = true -> cons_guard tn (t_cons c) [] o = true ->
     (In o (compare_indexes_and_uniques_f io iname tn (Some c) None) <-> In o (compare_indexes_and_uniques tn (Some c) None)).
-  Proof. intros Hc Hname Hg. unfold compare_indexes_and_uniques_f, compare_indexes_and_uniques. cbn [conn_cons_f orb negb flat_map app].
+  Proof. intros Hc Hname Hg. rewrite (ciu_f_no_unnamed tn (Some c) None I), (ciu_no_unnamed tn (Some c) None I).
+    unfold ciu_named_f, ciu_named. cbn [conn_cons_f orb negb flat_map app].
     rewrite !app_nil_r, !in_flat_map. split.
     - intros [x [Hx H]]. exists x. apply filter_In in Hx. destruct Hx as [Hx Hi]. unfold fcons in Hx. apply filter_In in Hx. split.
       + apply filter_In. tauto.
@@ -376,12 +409,12 @@ Section C20.
     obj_guard io conn meta o = true -> cons_guard tn cc mm o = true.
   Proof. intros Ht Hc Hm. destruct o; simpl in *; auto; subst; rewrite ?Hc, ?Hm; auto. Qed.
 
-  Lemma existing_conservative g conn meta c m o :
+  Lemma existing_conservative g conn meta c m o : t_uuqs m = [] ->
     kfind t_name (t_name m) conn = Some c -> kfind t_name (t_name m) meta = Some m -> nd_table c -> nd_table m ->
     NoDup (keys f_name (t_fks c)) -> NoDup (keys f_name (t_fks m)) ->
     iname (op_nref o) = true -> fk_twin_ok iname conn o = true -> obj_guard io conn meta o = true ->
     (In o (existing_table_f io iname g c m) <-> In o (existing_table g c m)).
-  Proof. intros Hc Hm [Hcc Hck] [Hmc Hmk] Hcf Hmf Hname Htw Hg.
+  Proof. intros Hu Hc Hm [Hcc Hck] [Hmc Hmk] Hcf Hmf Hname Htw Hg.
     assert (Htab: In o (existing_table_f io iname g c m) \/ In o (existing_table g c m) -> op_table o = t_name m).
     { intros [H|H]; [eapply existing_f_ops|eapply existing_ops_table]; eauto. }
     assert (Hcols: (In o (compare_columns_pre_f io iname g (t_name m) c m) <-> In o (compare_columns_pre g (t_name m) c m)) /\
@@ -420,9 +453,9 @@ Section C20.
       + right; right. exists x. rewrite E, Hio. auto.
   Qed.
 
-  Theorem diff_f_conservative g conn meta o : nd_schema conn -> nd_schema meta ->
+  Theorem diff_f_conservative g conn meta o : nd_schema conn -> nd_schema meta -> named_schema meta ->
     acc io iname conn meta o = true -> (In o (diff_f io iname g conn meta) <-> In o (diff g conn meta)).
-  Proof. intros [HAn HAt] [HBn HBt] Hacc. unfold acc, name_ok in Hacc. rewrite !andb_true_iff in Hacc.
+  Proof. intros [HAn HAt] [HBn HBt] HBu Hacc. unfold acc, name_ok in Hacc. rewrite !andb_true_iff in Hacc.
     destruct Hacc as [[[[[Hs Ht] Hn] Htw] Hg1] Hg2]. unfold diff_f, diff. rewrite in_compare_tables_f, in_compare_tables.
     unfold table_guard in Hg1. split.
     - intros [[m [Hm [E [Hio H]]]]|[[c [Hc [E [Hio H]]]]|[m [c [Hm [E [Hio H]]]]]]].
@@ -454,7 +487,7 @@ Section C20.
         * intros n. unfold lk_cons. rewrite (kfind_nodup t_name m meta); auto.
       + right; left. exists c. pose proof (removed_ops _ _ H) as Htab. rewrite Htab in *.
         pose proof (memN_false_kfind t_name _ _ E) as Em. rewrite (kfind_nodup t_name c conn), Em in Hg1; auto.
-        split. { unfold ftables. rewrite Hs. apply filter_In. auto. } split; auto. split; auto.
+        split. { unfold ftables. apply filter_In. rewrite Hs, Ht. auto. } split; auto. split; auto.
         unfold removed_table in H. unfold removed_table_f. rewrite in_app_iff in *.
         destruct H as [H|H]; [left|right; auto]. destruct (HAt c Hc) as [[_ Hk] _]. apply ciu_conservative_dropped; auto.
         eapply obj_guard_cons; eauto.
@@ -489,16 +522,17 @@ Lemma fk_eqb_refl f : fk_eqb f f = true.
 Proof. unfold fk_eqb. rewrite !N.eqb_refl, !list_eqbN_refl, fkopts_eqb_refl, eqb_reflx, orb_true_r. auto. Qed.
 Lemma op_eqb_refl o : op_eqb o o = true.
 Proof. destruct o; simpl; rewrite ?N.eqb_refl, ?col_eqb_refl, ?cons_eqb_refl, ?eqb_reflx, ?ty_eqb_refl, ?fk_eqb_refl, ?orb_true_r; auto.
-  - unfold table_equiv. rewrite N.eqb_refl, (list_eqb_refl col_eqb), (mset_eqb_refl cons_eqb), (mset_eqb_refl fk_eqb);
-      auto using col_eqb_refl, cons_eqb_refl, fk_eqb_refl.
-  - rewrite !opt_eqb_refl; auto using dflt_eqb_refl, ty_eqb_refl, eqb_reflx. intros a. apply opt_eqb_refl. apply dflt_eqb_refl. Qed.
+  - unfold table_equiv. rewrite N.eqb_refl, (list_eqb_refl col_eqb), (mset_eqb_refl cons_eqb), (mset_eqb_refl fk_eqb), (mset_eqb_refl uuq_eqb);
+      auto using col_eqb_refl, cons_eqb_refl, fk_eqb_refl. intros a. apply list_eqbN_refl.
+  - rewrite !opt_eqb_refl; auto using dflt_eqb_refl, ty_eqb_refl, eqb_reflx. intros a. apply opt_eqb_refl. apply dflt_eqb_refl.
+  - unfold uuq_eqb. apply list_eqbN_refl. Qed.
 Lemma inb_of_In o l : In o l -> inb o l = true.
 Proof. intros H. unfold inb. apply existsb_exists. exists o. split; auto. apply op_eqb_refl. Qed.
 
 Lemma nref_eqb_eq a b : nref_eqb a b = true -> a = b.
 Proof. destruct a, b; simpl; try congruence; rewrite ?andb_true_iff, ?N.eqb_eq; intuition congruence. Qed.
 Lemma objs_of_ref S r ob : In ob (objs_of S r) -> obj_ref ob = r.
-Proof. destruct r as [|t|t c|t n|t n|t n|t]; simpl; try tauto.
+Proof. destruct r as [|t|t c|t n|t n|t n|t|sn|t]; simpl; try tauto.
   - destruct (kfind t_name t S) eqn:E; simpl; [|tauto]. intros [<-|[]]. apply kfind_some in E. simpl. f_equal. tauto.
   - unfold lk_col. destruct (kfind t_name t S); [|simpl; tauto]. destruct (kfind c_name c (t_cols t0)) eqn:E; simpl; [|tauto].
     intros [<-|[]]. apply kfind_some in E. simpl. f_equal. tauto.
@@ -511,6 +545,7 @@ Proof. destruct r as [|t|t c|t n|t n|t n|t]; simpl; try tauto.
     intros [<-|[]]. apply kfind_some in E. simpl. unfold fkref. rewrite En. f_equal. tauto.
   - intros H. apply in_map_iff in H. destruct H as [x [<- Hx]]. apply filter_In in Hx. destruct Hx as [_ Hx]. apply negb_true_iff in Hx.
     simpl. unfold fkref. rewrite Hx. auto.
+  - destruct (kfind t_name t S); [|simpl; tauto]. intros H. apply in_map_iff in H. destruct H as [u [<- _]]. reflexivity.
 Qed.
 Lemma obj_acceptedb_sound f conn meta r : obj_acceptedb f conn meta r = true -> obj_accepted (io_of f) r.
 Proof. unfold obj_acceptedb. intros H. apply existsb_exists in H. destruct H as [ob [Hob H]].
@@ -533,11 +568,12 @@ Proof. intros [H1 H2]. split.
     + rewrite (keys_map f_name reflect_fk reflect_fk_name). auto. Qed.
 
 Theorem model_C20_holds i : inclass_C20 i = true -> C20_holds i (model_C20 i).
-Proof. destruct i as [[A B] f]. unfold inclass_C20. simpl. intros Hin. apply inclass_C06_core_wf in Hin. simpl in Hin. destruct Hin as [HA HB].
+Proof. destruct i as [[A B] f]. unfold inclass_C20. simpl. rewrite andb_true_iff. intros [Hin Hu]. apply inclass_C06_core_wf in Hin. simpl in Hin. destruct Hin as [HA HB].
+  apply named_of_no_unnamed in Hu.
   apply wf_nd_schema in HA. apply wf_nd_schema in HB. apply nd_schema_reflect in HA. split; [|split].
   - intros o Ho. apply (diff_f_In _ _ _ _ _ _ Ho).
   - intros o Ho. apply (diff_f_In _ _ _ _ _ _ Ho).
   - unfold conservativeb. rewrite andb_true_iff, !forallb_forall. split; intros o Ho.
-    + destruct (acc _ _ _ _ o) eqn:E; simpl; auto. apply inb_of_In. apply (diff_f_conservative _ _ g20 _ B o HA HB E). auto.
-    + destruct (acc _ _ _ _ o) eqn:E; simpl; auto. apply inb_of_In. apply (diff_f_conservative _ _ g20 _ B o HA HB E). auto.
+    + destruct (acc _ _ _ _ o) eqn:E; simpl; auto. apply inb_of_In. apply (diff_f_conservative _ _ g20 _ B o HA HB Hu E). auto.
+    + destruct (acc _ _ _ _ o) eqn:E; simpl; auto. apply inb_of_In. apply (diff_f_conservative _ _ g20 _ B o HA HB Hu E). auto.
 Qed.
